@@ -132,8 +132,8 @@ func loadProgramOverlay(repo string, cfg Config, overlay map[string][]byte) (*Pr
 	env = append(env, "GOOS="+cfg.GOOS, "GOARCH="+cfg.GOARCH, "CGO_ENABLED=0", "GOFLAGS=-mod=mod",
 		"GOPROXY=off", "GOSUMDB=off", "GOTOOLCHAIN=local", "GOWORK=off")
 	pc := &packages.Config{
-		Mode:  packages.LoadAllSyntax,
-		Dir:   repo,
+		Mode:    packages.LoadAllSyntax,
+		Dir:     repo,
 		Env:     env,
 		Tests:   false,
 		Overlay: overlay,
